@@ -662,6 +662,7 @@ func runC19(c *Check) {
 		c.ruleRestartNotBehindStopping("R10")
 		c.whoMayCall("R11", "(*spynode.Node).requestStop", requestStopCallers, 4)
 		c.ruleDialUnderLock("R12")
+		c.ruleFieldWriters("R14", "spynode", "Node", "connection", map[string]string{"spynode.(*Node).Run": "closed and cleared in the phased shutdown", "spynode.(*Node).connect": "set when dialled"}, "the phased shutdown closes the connection only when the field is set, and that close is what unblocks the reader: cleared elsewhere without closing, the incoming thread never ends and Stop / reconnect hang")
 		c.ruleHandlerCallbackCallers("R13", "HandleHeaders", map[string]string{"spynode.(*Node).ProcessBlock": "a block was added", "spynode.(*Node).provideBlock": "refeed"}, "a block header is announced to the handlers outside block processing (e.g. on every (re)connect): processed blocks are announced again")
 		var rq []ssa.Instruction
 		for _, s := range callsTo(fn, "(*spynode.Node).requestStop") {
